@@ -467,3 +467,414 @@ Qed.
    operation in order, idle, waiting) are those of the due-time bag specification. *)
 Theorem run_refines_spec : forall ops : list op, run ops = spec_run ops.
 Proof. intro ops. apply run_from_R, R_init. Qed.
+
+(* ---- the shape of a thread's run --------------------------------------------------------------- *)
+(* a thread either ends (one live thread less) or registers exactly one wait, due at
+   frame + d, with a strictly shorter rest of program; nothing else changes *)
+Lemma spec_thread_shape p : forall a tid log,
+  exists log',
+    spec_thread a tid p log =
+      (mkAbs (pend a) (frame a) (aclock a) (pred (alive a)) (atid a) (aseq a), log') \/
+    exists d p',
+      spec_thread a tid p log =
+        (mkAbs (pend a ++ [mkW tid (frame a + d) (aseq a) p']) (frame a) (aclock a) (alive a)
+               (atid a) (aseq a + 1), log') /\ (length p' < length p)%nat.
+Proof.
+  induction p as [|[m|d] p IH]; intros a tid log; cbn [spec_thread].
+  - exists log. left. reflexivity.
+  - destruct (IH a tid ((tid, m) :: log)) as [log' [E|(d & p' & E & Hl)]]; exists log'.
+    + left. exact E.
+    + right. exists d, p'. split; [exact E | cbn [length]; lia].
+  - exists log. right. exists d, p. split; [reflexivity | cbn [length]; lia].
+Qed.
+
+(* ---- (a) the resume loop ends within its fuel --------------------------------------------------- *)
+Lemma wt_single w : wt [w] = S (length (wprog w)).
+Proof. cbn. lia. Qed.
+
+Lemma wt_filter f l : (wt (filter f l) <= wt l)%nat.
+Proof.
+  induction l as [|x l IH]; cbn [filter]; [lia|].
+  destruct (f x); rewrite ?wt_cons; lia.
+Qed.
+
+Lemma wt_remove_min x r :
+  (S (length (wprog (min_w x r))) + wt (remove_w (wseq (min_w x r)) (x :: r)) <= wt (x :: r))%nat.
+Proof.
+  destruct (min_w_spec r x) as [Hin _]. revert Hin.
+  generalize (min_w x r) as m. generalize (x :: r) as l. clear x r.
+  induction l as [|y l IH]; intros m Hin; [destruct Hin|].
+  unfold remove_w in *. cbn [filter]. destruct Hin as [->|Hin].
+  - rewrite N.eqb_refl. cbn [negb]. rewrite wt_cons.
+    pose proof (wt_filter (fun x => negb (wseq x =? wseq m)) l). lia.
+  - specialize (IH m Hin). destruct (negb (wseq y =? wseq m)); rewrite ?wt_cons; lia.
+Qed.
+
+Lemma spec_thread_wt p a tid log :
+  (wt (pend (fst (spec_thread a tid p log))) <= length p + wt (pend a))%nat.
+Proof.
+  destruct (spec_thread_shape p a tid log) as [log' [E|(d & p' & E & Hl)]];
+    rewrite E; cbn [fst pend].
+  - lia.
+  - rewrite wt_app, wt_single. cbn [wprog]. lia.
+Qed.
+
+Lemma spec_resume_enough_fuel f : forall a log,
+  (wt (pend a) <= f)%nat -> spec_resume f a log <> None.
+Proof.
+  induction f as [|f IH]; intros a log Hw; rewrite spec_resume_eq;
+    destruct (pend a) as [|x r] eqn:E; try discriminate;
+    (destruct (frame a <? wdue (min_w x r)); [discriminate|]);
+    pose proof (wt_remove_min x r) as Hm; [lia|].
+  match goal with |- context [spec_thread ?a1 ?t ?p ?l] =>
+    pose proof (spec_thread_wt p a1 t l) as H; destruct (spec_thread a1 t p l) as [a2 log2] end.
+  cbn [fst pend] in H. apply IH. lia.
+Qed.
+
+Theorem spec_resume_never_hangs : forall a log, spec_resume (aweight a) a log <> None.
+Proof. intros a log. apply spec_resume_enough_fuel. apply le_n. Qed.
+
+Lemma spec_step_some a o : spec_step a o <> None.
+Proof.
+  destruct o as [p|dt|]; cbn [spec_step]; try discriminate.
+  - destruct (spec_thread _ (atid a) p []) as [a1 log].
+    pose proof (spec_resume_never_hangs a1 log) as H.
+    destruct (spec_resume (aweight a1) a1 log) as [[a2 l2]|]; [discriminate | exfalso; now apply H].
+  - match goal with |- context [spec_resume (aweight ?a1) ?a1 ?l] =>
+      pose proof (spec_resume_never_hangs a1 l) as H;
+      destruct (spec_resume (aweight a1) a1 l) as [[a2 l2]|]; [discriminate | exfalso; now apply H] end.
+Qed.
+
+Theorem spec_never_hangs : forall ops, ~ In None (spec_run ops).
+Proof.
+  intro ops. unfold spec_run. generalize abs_init as a.
+  induction ops as [|o ops IH]; intro a; cbn [spec_from]; [intros []|].
+  destruct (spec_step a o) as [[a' ob]|] eqn:E.
+  - intros [H|H]; [discriminate | exact (IH a' H)].
+  - exfalso. exact (spec_step_some a o E).
+Qed.
+
+(* no history of the model ever reports a resume loop that did not end *)
+Theorem never_hangs : forall ops, ~ In None (run ops).
+Proof. intro ops. rewrite run_refines_spec. apply spec_never_hangs. Qed.
+
+(* the same on every model state related to a spec state (all reachable ones: step_keeps_R) *)
+Theorem execute_never_hangs : forall s a log, R s a -> execute_running (weight s) s log <> None.
+Proof.
+  intros s a log HR H. pose proof (execute_running_R (weight s) s a log HR) as Hr.
+  rewrite H in Hr. rewrite (weight_R _ _ HR) in Hr. unfold res_rel in Hr.
+  pose proof (spec_resume_never_hangs a log) as Hs.
+  destruct (spec_resume (aweight a) a log) as [[a2 l2]|]; [exact Hr | now apply Hs].
+Qed.
+
+(* ---- (b) nothing that is due stays waiting after an Execute -------------------------------------- *)
+Lemma spec_thread_frame p a tid log : frame (fst (spec_thread a tid p log)) = frame a.
+Proof.
+  destruct (spec_thread_shape p a tid log) as [log' [E|(d & p' & E & Hl)]]; rewrite E; reflexivity.
+Qed.
+
+Theorem nothing_due_remains : forall f a log a' log',
+  spec_resume f a log = Some (a', log') ->
+  frame a' = frame a /\ forall w, In w (pend a') -> frame a' < wdue w.
+Proof.
+  induction f as [|f IH]; intros a log a' log'; rewrite spec_resume_eq;
+    destruct (pend a) as [|x r] eqn:E.
+  1,3: intro H; injection H as <- <-; split; [reflexivity|]; rewrite E; intros y [].
+  all: destruct (N.ltb_spec (frame a) (wdue (min_w x r))) as [Hlt|Hge].
+  1,3: intro H; injection H as <- <-; split; [reflexivity|]; rewrite E; now apply notdue_min.
+  - discriminate.
+  - match goal with |- context [spec_thread ?a1 ?t ?p ?l] =>
+      pose proof (spec_thread_frame p a1 t l) as Hf; destruct (spec_thread a1 t p l) as [a2 log2] end.
+    cbn [fst frame] in Hf. intro H. apply IH in H. rewrite Hf in H. exact H.
+Qed.
+
+Lemma R_mtime s a : R s a -> mtime s = frame a.
+Proof. intro HR. destruct HR. reflexivity. Qed.
+
+Lemma R_elems s a : R s a -> elems s = map w2e (pend a).
+Proof. intro HR. destruct HR. reflexivity. Qed.
+
+(* the same for the model: after ExecuteRunning m_time is unchanged and every element left
+   in the timer has a time > m_time *)
+Theorem execute_leaves_nothing_due : forall f s a log s' log',
+  R s a -> execute_running f s log = Some (s', log') ->
+  mtime s' = mtime s /\ forall e, In e (elems s') -> mtime s' < etime e.
+Proof.
+  intros f s a log s' log' HR H. pose proof (execute_running_R f s a log HR) as Hr.
+  rewrite H in Hr. unfold res_rel in Hr.
+  destruct (spec_resume f a log) as [[a' l2]|] eqn:E; [|contradiction].
+  destruct Hr as [HR' _]. apply nothing_due_remains in E. destruct E as [Ef En].
+  rewrite (R_mtime _ _ HR'), (R_mtime _ _ HR), (R_elems _ _ HR'). split; [exact Ef|].
+  intros e He. apply in_map_iff in He. destruct He as [w [<- Hw]]. cbn [etime w2e]. now apply En.
+Qed.
+
+Theorem step_keeps_R : forall s a o s' ob,
+  R s a -> step s o = Some (s', ob) -> exists a', spec_step a o = Some (a', ob) /\ R s' a'.
+Proof.
+  intros s a o s' ob HR H. pose proof (step_R s a o HR) as Hr. rewrite H in Hr.
+  unfold step_rel in Hr. destruct (spec_step a o) as [[a' ob']|]; [|contradiction].
+  destruct Hr as [HR' ->]. exists a'. split; [reflexivity | exact HR'].
+Qed.
+
+(* ---- (c) never early, exactly once ------------------------------------------------------------------ *)
+(* spec_resume with the trace of the waiters it resumed (latest first) *)
+Fixpoint spec_resume_tr (fuel : nat) (a : abs) (log : list pr) (tr : list waiter)
+  : option (abs * list pr * list waiter) :=
+  match pend a with
+  | [] => Some (a, log, tr)
+  | x :: r =>
+      let m := min_w x r in
+      if frame a <? wdue m then Some (a, log, tr)
+      else match fuel with
+           | O => None
+           | S f =>
+               let a1 := mkAbs (remove_w (wseq m) (pend a)) (frame a) (aclock a) (alive a)
+                               (atid a) (aseq a) in
+               let '(a2, log2) := spec_thread a1 (wtid m) (wprog m) log in
+               spec_resume_tr f a2 log2 (m :: tr)
+           end
+  end.
+
+Lemma spec_resume_tr_eq f a log tr :
+  spec_resume_tr f a log tr =
+  match pend a with
+  | [] => Some (a, log, tr)
+  | x :: r =>
+      if frame a <? wdue (min_w x r) then Some (a, log, tr)
+      else match f with
+           | O => None
+           | S f' =>
+               let '(a2, log2) :=
+                 spec_thread (mkAbs (remove_w (wseq (min_w x r)) (pend a)) (frame a) (aclock a)
+                                    (alive a) (atid a) (aseq a))
+                             (wtid (min_w x r)) (wprog (min_w x r)) log in
+               spec_resume_tr f' a2 log2 (min_w x r :: tr)
+           end
+  end.
+Proof. destruct f; reflexivity. Qed.
+
+(* forgetting the trace gives spec_resume *)
+Theorem spec_resume_tr_agrees : forall f a log tr,
+  option_map (fun r => (fst (fst r), snd (fst r))) (spec_resume_tr f a log tr) =
+  spec_resume f a log.
+Proof.
+  induction f as [|f IH]; intros a log tr; rewrite spec_resume_tr_eq, spec_resume_eq;
+    (destruct (pend a) as [|x r]; [reflexivity|]);
+    (destruct (frame a <? wdue (min_w x r)); [reflexivity|]); [reflexivity|].
+  match goal with |- context [spec_thread ?a1 ?t ?p ?l] =>
+    destruct (spec_thread a1 t p l) as [a2 log2] end.
+  apply IH.
+Qed.
+
+(* never early: whoever is resumed was due (due <= frame time), and was either waiting when
+   the Execute began or registered its wait during this Execute *)
+Theorem resumed_only_when_due : forall f a log tr a' log' tr',
+  spec_resume_tr f a log tr = Some (a', log', tr') ->
+  forall w, In w tr' ->
+    In w tr \/ (wdue w <= frame a /\ (In w (pend a) \/ aseq a <= wseq w)).
+Proof.
+  induction f as [|f IH]; intros a log tr a' log' tr'; rewrite spec_resume_tr_eq;
+    destruct (pend a) as [|x r] eqn:E.
+  1,3: intro H; injection H as <- <- <-; intros w Hw; now left.
+  all: destruct (N.ltb_spec (frame a) (wdue (min_w x r))) as [Hlt|Hge].
+  1,3: intro H; injection H as <- <- <-; intros w Hw; now left.
+  - discriminate.
+  - destruct (min_w_spec r x) as [Hin _].
+    match goal with |- context [spec_thread ?a1 ?t ?p ?l] =>
+      destruct (spec_thread_shape p a1 t l) as [log2 [E2|(d & p' & E2 & _)]]; rewrite E2 end;
+      intros H w Hw; destruct (IH _ _ _ _ _ _ H w Hw) as [[<-|Ht]|[Hd Hp]];
+      cbn [frame pend aseq] in *.
+    1,4: right; split; [exact Hge | left; exact Hin].
+    1,3: now left.
+    + right. split; [exact Hd|]. destruct Hp as [Hp|Hp]; [left|right; exact Hp].
+      unfold remove_w in Hp. apply filter_In in Hp. tauto.
+    + right. split; [exact Hd|]. destruct Hp as [Hp|Hp]; [|right; lia].
+      apply in_app_or in Hp. destruct Hp as [Hp|[<-|[]]].
+      * left. unfold remove_w in Hp. apply filter_In in Hp. tauto.
+      * right. cbn [wseq]. lia.
+Qed.
+
+(* exactly once: the sequence numbers of the resumed waiters are pairwise distinct and none
+   of them is waiting any more *)
+Definition trinv (a : abs) (tr : list waiter) : Prop :=
+  qinv (pend a) (aseq a) /\ NoDup (map wseq tr) /\
+  forall w, In w tr -> wseq w < aseq a /\ ~ In (wseq w) (map wseq (pend a)).
+
+Lemma trinv_pop a tr x r :
+  trinv a tr -> pend a = x :: r ->
+  trinv (mkAbs (remove_w (wseq (min_w x r)) (x :: r)) (frame a) (aclock a) (alive a) (atid a)
+               (aseq a)) (min_w x r :: tr).
+Proof.
+  intros (Hq & Hnd & Ht) E. rewrite E in Hq, Ht.
+  destruct (min_split x r (qi_sseq _ _ Hq)) as (l1 & l2 & E2 & Hl1 & Hl2).
+  destruct (min_w_spec r x) as [Hin _].
+  assert (Hnm : ~ In (wseq (min_w x r)) (map wseq (l1 ++ l2))).
+  { intro Hi. apply in_map_iff in Hi. destruct Hi as [y [Ey Hy]]. apply in_app_or in Hy.
+    destruct Hy as [Hy|Hy]; [specialize (Hl1 _ Hy) | specialize (Hl2 _ Hy)]; lia. }
+  unfold trinv. cbn [pend aseq]. rewrite E2 in Hq |- *.
+  rewrite remove_w_split; [|intros y Hy; now apply Hl1 | intros y Hy; now apply Hl2].
+  split; [eapply qinv_split; exact Hq|]. split.
+  - cbn [map]. constructor; [|exact Hnd]. intro Hi. apply in_map_iff in Hi.
+    destruct Hi as [w [Ew Hw]]. apply (proj2 (Ht _ Hw)). rewrite Ew. now apply in_map.
+  - intros w [<-|Hw].
+    + split; [|exact Hnm]. apply (qi_bound _ _ Hq). apply in_or_app. right. now left.
+    + destruct (Ht _ Hw) as [Hb Hn]. split; [exact Hb|]. intro Hi. apply Hn. rewrite E2.
+      apply in_map_iff in Hi. destruct Hi as [y [Ey Hy]]. apply in_map_iff. exists y.
+      split; [exact Ey|]. apply in_app_or in Hy. apply in_or_app.
+      destruct Hy as [Hy|Hy]; [now left | right; now right].
+Qed.
+
+Lemma spec_thread_trinv p a tid log tr :
+  trinv a tr -> trinv (fst (spec_thread a tid p log)) tr.
+Proof.
+  intros (Hq & Hnd & Ht).
+  destruct (spec_thread_shape p a tid log) as [log' [E|(d & p' & E & Hl)]]; rewrite E;
+    unfold trinv; cbn [fst pend aseq].
+  - auto.
+  - split; [now apply qinv_snoc|]. split; [exact Hnd|]. intros w Hw.
+    destruct (Ht _ Hw) as [Hb Hn]. split; [lia|]. rewrite map_app. intro Hi.
+    apply in_app_or in Hi. destruct Hi as [Hi|[Hi|[]]]; [now apply Hn|]. cbn [wseq] in Hi. lia.
+Qed.
+
+Theorem resumed_exactly_once : forall f a log tr a' log' tr',
+  trinv a tr -> spec_resume_tr f a log tr = Some (a', log', tr') -> trinv a' tr'.
+Proof.
+  induction f as [|f IH]; intros a log tr a' log' tr' Hi; rewrite spec_resume_tr_eq;
+    destruct (pend a) as [|x r] eqn:E.
+  1,3: intro H; injection H as <- <- <-; exact Hi.
+  all: destruct (frame a <? wdue (min_w x r)).
+  1,3: intro H; injection H as <- <- <-; exact Hi.
+  - discriminate.
+  - pose proof (trinv_pop a tr x r Hi E) as Hi1.
+    match goal with |- context [spec_thread ?a1 ?t ?p ?l] =>
+      pose proof (spec_thread_trinv p a1 t l _ Hi1) as Hi2;
+      destruct (spec_thread a1 t p l) as [a2 log2] end.
+    cbn [fst] in Hi2. intro H. exact (IH _ _ _ _ _ _ Hi2 H).
+Qed.
+
+Theorem resumed_exactly_once_from_empty : forall f a log a' log' tr',
+  qinv (pend a) (aseq a) -> spec_resume_tr f a log [] = Some (a', log', tr') ->
+  NoDup (map wseq tr') /\
+  (forall w, In w tr' -> ~ In (wseq w) (map wseq (pend a'))) /\
+  qinv (pend a') (aseq a').
+Proof.
+  intros f a log a' log' tr' Hq H.
+  assert (Hi : trinv a []) by (split; [exact Hq | split; [constructor | intros w []]]).
+  destruct (resumed_exactly_once _ _ _ _ _ _ _ Hi H) as (Hq' & Hnd & Ht).
+  split; [exact Hnd|]. split; [|exact Hq']. intros w Hw. exact (proj2 (Ht _ Hw)).
+Qed.
+
+(* every reachable spec state has distinct, increasing sequence numbers below aseq *)
+Lemma spec_resume_qinv f a log a' log' :
+  qinv (pend a) (aseq a) -> spec_resume f a log = Some (a', log') -> qinv (pend a') (aseq a').
+Proof.
+  intros Hq H. pose proof (spec_resume_tr_agrees f a log []) as Ha. rewrite H in Ha.
+  destruct (spec_resume_tr f a log []) as [[[a'' l''] tr']|] eqn:E; [|discriminate].
+  cbn [option_map fst snd] in Ha. injection Ha as -> ->.
+  exact (proj2 (proj2 (resumed_exactly_once_from_empty _ _ _ _ _ _ Hq E))).
+Qed.
+
+Lemma spec_thread_qinv p a tid log :
+  qinv (pend a) (aseq a) ->
+  qinv (pend (fst (spec_thread a tid p log))) (aseq (fst (spec_thread a tid p log))).
+Proof.
+  intro Hq. destruct (spec_thread_shape p a tid log) as [log' [E|(d & p' & E & Hl)]]; rewrite E;
+    cbn [fst pend aseq]; [exact Hq | now apply qinv_snoc].
+Qed.
+
+Theorem spec_step_keeps_qinv : forall a o a' ob,
+  qinv (pend a) (aseq a) -> spec_step a o = Some (a', ob) -> qinv (pend a') (aseq a').
+Proof.
+  intros a o a' ob Hq. destruct o as [p|dt|]; cbn [spec_step].
+  - match goal with |- context [spec_thread ?a0 ?t p ?l] =>
+      pose proof (spec_thread_qinv p a0 t l Hq) as H1; destruct (spec_thread a0 t p l) as [a1 log] end.
+    cbn [fst] in H1. destruct (spec_resume (aweight a1) a1 log) as [[a2 l2]|] eqn:E; [|discriminate].
+    intro H. injection H as <- _. exact (spec_resume_qinv _ _ _ _ _ H1 E).
+  - intro H. injection H as <- _. exact Hq.
+  - match goal with |- context [spec_resume (aweight ?a1) ?a1 ?l] =>
+      destruct (spec_resume (aweight a1) a1 l) as [[a2 l2]|] eqn:E; [|discriminate] end.
+    intro H. injection H as <- _. eapply spec_resume_qinv; [|exact E]. exact Hq.
+Qed.
+
+(* ---- (d) busy while anybody waits --------------------------------------------------------------------- *)
+Definition winv (a : abs) : Prop := (length (pend a) <= alive a)%nat.
+
+Lemma filter_len_le {A} (f : A -> bool) l : (length (filter f l) <= length l)%nat.
+Proof. induction l as [|x l IH]; cbn [filter]; [lia|]. destruct (f x); cbn [length]; lia. Qed.
+
+Lemma filter_len_lt {A} (f : A -> bool) l m :
+  In m l -> f m = false -> (length (filter f l) < length l)%nat.
+Proof.
+  induction l as [|x l IH]; intros Hin Hf; [destruct Hin|]. cbn [filter]. destruct Hin as [->|Hin].
+  - rewrite Hf. pose proof (filter_len_le f l). cbn [length]. lia.
+  - specialize (IH Hin Hf). destruct (f x); cbn [length]; lia.
+Qed.
+
+Lemma spec_thread_winv p a tid log :
+  (length (pend a) < alive a)%nat -> winv (fst (spec_thread a tid p log)).
+Proof.
+  intro H. destruct (spec_thread_shape p a tid log) as [log' [E|(d & p' & E & Hl)]]; rewrite E;
+    unfold winv; cbn [fst pend alive].
+  - lia.
+  - rewrite app_length. cbn [length]. lia.
+Qed.
+
+Lemma spec_resume_winv f : forall a log a' log',
+  winv a -> spec_resume f a log = Some (a', log') -> winv a'.
+Proof.
+  induction f as [|f IH]; intros a log a' log' Hw; rewrite spec_resume_eq;
+    destruct (pend a) as [|x r] eqn:E.
+  1,3: intro H; injection H as <- _; exact Hw.
+  all: destruct (frame a <? wdue (min_w x r)).
+  1,3: intro H; injection H as <- _; exact Hw.
+  - discriminate.
+  - destruct (min_w_spec r x) as [Hin _].
+    assert (Hl : (length (remove_w (wseq (min_w x r)) (x :: r)) < alive a)%nat).
+    { unfold winv in Hw. rewrite E in Hw. unfold remove_w.
+      pose proof (filter_len_lt (fun y => negb (wseq y =? wseq (min_w x r))) _ _ Hin) as Hf.
+      cbn beta in Hf. rewrite N.eqb_refl in Hf. specialize (Hf eq_refl). lia. }
+    match goal with |- context [spec_thread ?a1 ?t ?p ?l] =>
+      pose proof (spec_thread_winv p a1 t l Hl) as H2; destruct (spec_thread a1 t p l) as [a2 log2] end.
+    cbn [fst] in H2. intro H. exact (IH _ _ _ _ H2 H).
+Qed.
+
+Theorem spec_step_keeps_winv : forall a o a' ob,
+  winv a -> spec_step a o = Some (a', ob) -> winv a' /\ exists log, ob = aobserve a' log.
+Proof.
+  intros a o a' ob Hw. destruct o as [p|dt|]; cbn [spec_step].
+  - match goal with |- context [spec_thread ?a0 ?t p ?l] =>
+      assert (H1 : winv (fst (spec_thread a0 t p l)))
+        by (apply spec_thread_winv; cbn [pend alive]; unfold winv in Hw; lia);
+      destruct (spec_thread a0 t p l) as [a1 log] end.
+    cbn [fst] in H1. destruct (spec_resume (aweight a1) a1 log) as [[a2 l2]|] eqn:E; [|discriminate].
+    intro H. injection H as <- <-. split; [exact (spec_resume_winv _ _ _ _ _ H1 E) | now exists l2].
+  - intro H. injection H as <- <-. split; [exact Hw | now exists []].
+  - match goal with |- context [spec_resume (aweight ?a1) ?a1 ?l] =>
+      destruct (spec_resume (aweight a1) a1 l) as [[a2 l2]|] eqn:E; [|discriminate] end.
+    intro H. injection H as <- <-. split; [eapply spec_resume_winv; [|exact E]; exact Hw | now exists l2].
+Qed.
+
+Lemma aobserve_busy a log :
+  winv a -> waiting (aobserve a log) = true -> idle (aobserve a log) = false.
+Proof.
+  unfold winv, aobserve. cbn [waiting idle]. destruct (pend a) as [|w l]; cbn [negb length].
+  - discriminate.
+  - intros H _. destruct (alive a); [lia | reflexivity].
+Qed.
+
+Theorem spec_busy_while_waiting : forall ops ob,
+  In (Some ob) (spec_run ops) -> waiting ob = true -> idle ob = false.
+Proof.
+  intros ops ob. unfold spec_run.
+  assert (H0 : winv abs_init) by (unfold winv; cbn; lia). revert H0. generalize abs_init as a.
+  induction ops as [|o ops IH]; intros a Hw; cbn [spec_from]; [intros []|].
+  destruct (spec_step a o) as [[a' ob']|] eqn:E.
+  - destruct (spec_step_keeps_winv _ _ _ _ Hw E) as [Hw' [log Eo]].
+    intros [H|H]; [|exact (IH a' Hw' H)]. injection H as <-. rewrite Eo. now apply aobserve_busy.
+  - intros [H|[]]. discriminate.
+Qed.
+
+(* in every observation of every history of the model: a waiting thread keeps the engine busy *)
+Theorem busy_while_waiting : forall ops ob,
+  In (Some ob) (run ops) -> waiting ob = true -> idle ob = false.
+Proof. intros ops ob. rewrite run_refines_spec. apply spec_busy_while_waiting. Qed.
